@@ -8,7 +8,7 @@ from vlib.oracle import positions
 PROPERTY = 'C01'
 RULE = ('cases are (table, side, subset, argument form): tables are every boolean table with n*m <= 12 (quick) / '
         '<= 16 (thorough) with EVERY subset of objects and of properties, Hypothesis fill families up to 10x10 with '
-        'every subset (n, m <= 8) or drawn subsets, and wide tables (1-6 x 60-140 and transposed: sparse, dense, '
+        'every subset (n, m <= 8) or drawn subsets, and wide tables (1-6 x 60-320 and transposed: sparse, dense, '
         'word-edge bits 31/32/33/63/64/65, long zero runs) with the empty set, the full set, every singleton, '
         'every pair whose distance is within 2 of 32/64/128 and 40 drawn subsets; each subset also passed as a '
         'shuffled list with repeats or as a one-shot iterator. Oracle (from the input bools, by definition): '
